@@ -66,6 +66,17 @@ package common
 //@   loop range:g.IgnoreErrorFloderVec step [compiled-folder-rule-is-consulted] has(g.IgnoreErrorFileOrFloderRegexp, floderStr) ==> hits("(*regexp.Regexp).MatchString#0") == prev(hits("(*regexp.Regexp).MatchString#0")) + 1
 //@ end
 
+// the error-ignore rules are written relative to the workspace (like the rules IsIgnoreCompleteFile applies): the directories
+// above the workspace root take no part in the match (fix: the absolute path was matched, so a folder rule "tests/"
+// silenced a whole workspace that merely lies below a directory tests/)
+//@ func (*GlobalConfig).IsIgnoreErrorFile
+//@   props C17
+//@   at call strings.TrimPrefix#0 before assert[workspace-root-is-what-is-cut-off] arg0 == old(strFile) && arg1 == lastresult("(*DirManager).GetMainDir#0")
+//@   at call strings.Contains#0 before assert[folder-rules-see-the-path-below-the-workspace-root] hits("(*DirManager).GetMainDir#0") == 1 && (len(lastresult("(*DirManager).GetMainDir#0")) > 0 && hasPrefix(old(strFile), lastresult("(*DirManager).GetMainDir#0")) ==> hits("strings.TrimPrefix#0") == 1 && arg0 == lastresult("strings.TrimPrefix#0"))
+//@   at call strings.Contains#1 before assert[file-rules-see-the-path-below-the-workspace-root] hits("(*DirManager).GetMainDir#0") == 1 && (len(lastresult("(*DirManager).GetMainDir#0")) > 0 && hasPrefix(old(strFile), lastresult("(*DirManager).GetMainDir#0")) ==> hits("strings.TrimPrefix#0") == 1 && arg0 == lastresult("strings.TrimPrefix#0"))
+//@   at call strings.Contains#2 before assert[type-rules-see-the-path-below-the-workspace-root] hits("(*DirManager).GetMainDir#0") == 1 && (len(lastresult("(*DirManager).GetMainDir#0")) > 0 && hasPrefix(old(strFile), lastresult("(*DirManager).GetMainDir#0")) ==> hits("strings.TrimPrefix#0") == 1 && arg0 == lastresult("strings.TrimPrefix#0"))
+//@ end
+
 // ignore rules for whole files / folders: a path is declared NOT ignored only after every rule has been tried - a rule
 // that is not a valid regular expression acts as a plain substring rule and does not hide the rules after it
 //@ func (*GlobalConfig).isIgnoreFloder
